@@ -23,9 +23,12 @@ type CloseCase struct {
 	WaitUS int       `json:"wait_us,omitempty"` // timers: pause before Close
 	Fail   string    `json:"fail,omitempty"`    // failopen: what is wrong
 	Cycles int       `json:"cycles,omitempty"`  // cycles: number of open/close repetitions
+	// NoStart (parked, timers): Store.Start is never called; the collectors
+	// run all the same (OpenStore starts them), only the flusher does not.
+	NoStart bool `json:"no_start,omitempty"`
 }
 
-const c17Rule = "five generated situations on stores with 1 ms GC and sync intervals (both collectors and the flusher really run): (parked) the cooperative scheduler adopts the store's own background goroutines at their named points, holds one of them at a drawn point inside a GC cycle or a flush, and then issues Close from the foreground task (a third of these cases prepare a low-use primary file so that the cycle in progress is one that relocates records); (timers) free-running activity, a drawn pause, Close; (failopen) OpenStore that must fail (other index/primary file size, the same together with another bit size so that the failure happens inside the index translation, another bit size with an index file missing, garbage or empty header files, unsupported primary type, a store in the legacy formats whose index or primary file ends in a partial size prefix) on an existing store; (cycles) 1-30 open/activity/close repetitions; (faultclose) an environment fault (stray file at the next primary file name, stray directory at the next index file name or at the temporary name of the bucket snapshot) makes the flush or the snapshot inside Close fail - Close may return the error but must still stop everything and release every descriptor. " +
+const c17Rule = "five generated situations on stores with 1 ms GC and sync intervals (both collectors and the flusher really run): (parked) the cooperative scheduler adopts the store's own background goroutines at their named points, holds one of them at a drawn point inside a GC cycle or a flush, and then issues Close from the foreground task (a third of these cases prepare a low-use primary file so that the cycle in progress is one that relocates records; in some of the cases that hold a collector the store is never started - the collectors run all the same); (timers) free-running activity, a drawn pause, Close; (failopen) OpenStore that must fail (other index/primary file size, the same together with another bit size so that the failure happens inside the index translation, another bit size with an index file missing, garbage or empty header files, unsupported primary type, a store in the legacy formats whose index or primary file ends in a partial size prefix) on an existing store; (cycles) 1-30 open/activity/close repetitions; (faultclose) an environment fault (stray file at the next primary file name, stray directory at the next index file name or at the temporary name of the bucket snapshot) makes the flush or the snapshot inside Close fail - Close may return the error but must still stop everything and release every descriptor. " +
 	"oracle = census right after Close (or the failed open) returns: no goroutine with a frame of the module (polled up to 2 s so that goroutines that already signalled completion can finish returning; a goroutine parked at a named point never finishes), no descriptor in /proc/self/fd pointing into the store directory, directory listing with sizes and content hashes unchanged across a pause and after every held goroutine is released, second Close returns nil, a reopen works; counts after N cycles equal the baseline. " +
 	"non-trivial = Close issued while a GC cycle or flush was provably in progress (a background goroutine held at a named point, or point counters advanced within the last pause), an open that did fail, or a Close that did return the injected error; distinct = distinct canonical JSON of the case"
 
@@ -96,6 +99,9 @@ func genClose(t *rapid.T) CloseCase {
 			}
 			c.Ops = append(c.Ops, Op{K: opFlush})
 			c.Point = []string{"pgc.file", "pgc.reap.relocate", "pgc.reap.relocated", "pgc.reap.updated", "pgc.fl.mark", "pgc.freelistDone", "pgc.reap.truncate"}[rapid.IntRange(0, 6).Draw(t, "lowusepoint")]
+			c.NoStart = weighted(t, "nostart", []int{2, 1}) == 1
+		} else if strings.HasPrefix(c.Point, "pgc.") || strings.HasPrefix(c.Point, "igc.") {
+			c.NoStart = weighted(t, "nostart2", []int{4, 1}) == 1
 		}
 	case "timers":
 		c.WaitUS = rapid.IntRange(0, 4000).Draw(t, "wait")
@@ -493,7 +499,9 @@ func runClose(c CloseCase) (st closeStats, v *Violation) {
 		return "bg:" + strings.SplitN(point, ".", 2)[0]
 	}
 	sch.install()
-	s.Start()
+	if !c.NoStart {
+		s.Start()
+	}
 	var closeErr error
 	var censusViol *Violation
 	mainDone := make(chan struct{})
